@@ -157,6 +157,8 @@ def make_sequence(eng, k, n, alphabet):
 # ------------------------------------------------------------------- documents: rendering vs the myst-anchors command, all depths
 
 DOC_TITLES = ["a", "a-1", "A", "b c", "?!", "a-2"]
+# titles where str.lower and str.casefold differ (sharp s, final sigma), and a title wrapped over two lines (a Setext heading)
+ODD_TITLES = ["Stra\u00dfe", "Strasse", "\u039f\u0394\u039f\u03a3 \u03c2", "wrapped\ntitle", "wrappedtitle"]
 
 
 def expected_slugs(levels, titles, depth):
@@ -168,7 +170,7 @@ def expected_slugs(levels, titles, depth):
         if l > depth:
             out.append(None)
             continue
-        base_slug = re.sub(r"[^\w\u4e00-\u9fff\- ]", "", t.lower().replace(" ", "-"))
+        base_slug = re.sub(r"[^\w\u4e00-\u9fff\- ]", "", t.replace("\n", "").lower().replace(" ", "-"))  # (a line break inside a title contributes nothing)
         want, i = base_slug, 1
         while want in seen:
             want = "%s-%d" % (base_slug, i)
@@ -193,7 +195,7 @@ def run_doc(levels, titles, depth, custom, real=False):
     from harness import common_render as CR
 
     # (front matter and a MyST target line: the command must parse the file with the same MyST rules as the renderer)
-    text = "---\nauthor: jo bloggs\n---\n\n" + "".join("%s %s\n\npara\n\n" % ("#" * l, t) for l, t in zip(levels, titles)) + "(lbl)=\nlast para\n\n"
+    text = "---\nauthor: jo bloggs\n---\n\n" + "".join(("%s\n%s\n\npara\n\n" % (t, "=-"[l - 1] * 3) if "\n" in t else "%s %s\n\npara\n\n" % ("#" * l, t)) for l, t in zip(levels, titles)) + "(lbl)=\nlast para\n\n"
     exp = expected_slugs(levels, titles, depth)
     if custom is None:
         # every anchor is linked once: it must resolve to its own heading
@@ -267,7 +269,7 @@ def check_doc(levels, titles, depth, custom, res):
     return None
 
 
-def make_doc(eng, k, depths, with_custom):
+def make_doc(eng, k, depths, with_custom, pool=None, maxlevel=3):
     from harness import common_render as CR
 
     CR.setup_pipeline()
@@ -279,8 +281,8 @@ def make_doc(eng, k, depths, with_custom):
 
     def body():
         c.reset()
-        levels = [1 + c.choose(3) for _ in range(k)]
-        titles = [c.pick(DOC_TITLES if k <= 2 else [t_ for t_ in DOC_TITLES if t_ not in ("A", "b c")]) for _ in range(k)]
+        levels = [1 + c.choose(maxlevel) for _ in range(k)]
+        titles = [c.pick(pool or (DOC_TITLES if k <= 2 else [t_ for t_ in DOC_TITLES if t_ not in ("A", "b c")])) for _ in range(k)]
         depth = c.pick(depths)
         custom = (c.choose(len(EXC_CLASSES) + 1) - 1) if with_custom else -1
         custom = None if custom < 0 else custom
@@ -293,7 +295,7 @@ def make_doc(eng, k, depths, with_custom):
         if err:
             eng.fail(*err)
         eng.passed(4)
-        if len(set(t.lower() for t in titles)) < len(titles) or custom is not None:
+        if len(set(t.lower() for t in titles)) < len(titles) or custom is not None or pool:
             eng.note("slug_nontrivial")
         return "ok"
 
@@ -333,6 +335,8 @@ def families(tier, seed):
     for k in ([2, 3] if q else [3, 4]):
         F.append(Family("document/K%d" % k, make_doc, "%d headings (level 1-3, title from %r) x heading_anchors depth in %r: rendered anchors vs the real myst-anchors command (-l depth) vs the documented suffix rule; every anchor linked once and resolving to its own heading" % (
             k, DOC_TITLES, [0, 1, 2, 3, 7]), args=dict(k=k, depths=[0, 1, 2, 3, 7], with_custom=False), nontrivial="slug_nontrivial", max_forks=200000, required=(k <= 3)))
+    F.append(Family("document/odd-titles", make_doc, "2 headings (level 1-2) with titles from %r (sharp s, final sigma, a Setext title wrapped over two lines) x depth in [1, 2]: same obligations" % (ODD_TITLES,),
+                    args=dict(k=2, depths=[1, 2], with_custom=False, pool=ODD_TITLES, maxlevel=2), nontrivial="slug_nontrivial", max_forks=200000))
     F.append(Family("document/failing-slug-func", make_doc, "2 headings x depth x a custom slug function raising one of %r: only [myst.heading_slug] warnings" % ([e.__name__ for e in EXC_CLASSES],),
                     args=dict(k=2, depths=[1, 2, 7], with_custom=True), nontrivial="slug_nontrivial", max_forks=200000))
     return F
